@@ -17,7 +17,7 @@ import collections
 import hashlib
 import itertools
 
-from ..core import Prop, shrink, watchdog, WatchdogTimeout
+from ..core import Prop, shrink, watchdog
 from ..explore import bfs_histories
 
 FLAGS = ["auto_compact", "keep_order", "keep_duplicates", "keep_all", "avoid_name_clash"]
@@ -352,6 +352,7 @@ class Run(object):
         self.m = Model()
         self.used = set()     # keys of variable atoms referenced by a non-atom call so far
         self.error = None     # (symptom, text, expected, observed)
+        self.last = None      # outcome class of the last call (evidence only)
         self.steps = 0
 
     # -- one call -------------------------------------------------------------------------
@@ -447,6 +448,8 @@ class Run(object):
                 raise Invalid("negcycle")
 
         # 2. execute on the real builder
+        nbefore = len(f)
+        dis_before = f.get_node(op[1]) if kind == "dis" and op[1] else None
         try:
             res = call()
         except Exception as e:  # in-contract call raised
@@ -462,6 +465,18 @@ class Run(object):
             return None
 
         nb = 1 << m.nvars
+        if kind == "name":
+            self.last = "name"
+        elif res is None:
+            self.last = kind + "->FALSE"
+        elif res == 0:
+            self.last = kind + "->TRUE"
+        elif len(f) > nbefore:
+            self.last = kind + "->new-node"
+        elif kind == "dis":
+            self.last = "dis->updated" if f.get_node(op[1]) != dis_before else "dis->unchanged"
+        else:
+            self.last = kind + "->existing-key"
         # 3. the returned key
         if kind != "name":
             if not (res is None or (isinstance(res, int) and not isinstance(res, bool))):
@@ -789,6 +804,8 @@ def level_menu(info, level):
     ops = menu(info, level)
     if level == "rich":
         ops = ops + atom_menu(info)
+        if info.atoms:
+            ops.append(["dis", 0, info.atoms[0]])    # documented: TRUE may be passed and is returned
     return ops
 
 
@@ -836,7 +853,7 @@ PLANS = {
         ("rrm", "plain", [R, R, M], 24, "le2"),
         ("mmm", "plain", [M, M, M], 8, "all"),
         ("rnnnn", "plain", [R, N, N, N, N], 8, "all"),
-        ("rnnnnn", "plain", [R, N, N, N, N, N], 24, "le2"),
+        ("rnnnnn", "plain", [R, N, N, N, N, N], 24, "le1"),
         ("rmnnn", "plain", [R, M, N, N, N], 24, "le1"),
         ("qqqq", "plain", [Q, Q, Q, Q], 8, "le2"),
         ("qqq", "plain", [Q, Q, Q], 1, "gt2"),
@@ -868,10 +885,6 @@ def _filter(cfg, flt):
     raise ValueError(flt)
 
 
-def classify(symptom_text):
-    return symptom_text
-
-
 class Explorer(object):
     """one BFS (one config, variant, plan, chunk of first-level calls)"""
 
@@ -892,6 +905,7 @@ class Explorer(object):
             return ("invalid", inv), None
         if err:
             return None, err
+        self.outcomes[r.last] += 1
         st = r.state()
         if len(h) < self.maxlen and st not in self.infos:     # states at the depth bound are never expanded
             self.infos[st] = Info(r, self.classes)
@@ -1022,6 +1036,16 @@ def concretize(config, sym):
     return hist
 
 
+def _rank(a):
+    if a == ["c", 0]:
+        return 0
+    if a == ["c", None]:
+        return 1
+    if a == [1, 0]:
+        return 2
+    return 3
+
+
 def shrink_candidates(case):
     config, hist = case["config"], case["history"]
     # 1. fewer configuration deviations
@@ -1061,22 +1085,31 @@ def shrink_candidates(case):
         h2 = concretize(config, s2)
         if h2 is not None:
             yield {"config": config, "history": h2}
-    # 3. simpler arguments: drop one argument of a compound call, replace an argument by the first atom
+    # 3. simpler calls: mutable disjunction -> empty placeholder, constant arguments, fewer arguments,
+    #    the first atom as argument, no name, plain atoms
     for j in range(n - 1, -1, -1):
         op, args = sym[j]
+        if op[0] == "or" and op[2] == "mut":
+            s2 = list(sym)
+            s2[j] = (["or", [], "ph", op[3]], [])
+            h2 = concretize(config, s2)
+            if h2 is not None:
+                yield {"config": config, "history": h2}
+        for x, a in enumerate(args):
+            if op[0] == "dis" and x == 0:
+                continue
+            # strictly simpler only (TRUE < FALSE < first atom < anything else): no ping-pong
+            for repl in (["c", 0], ["c", None], [1, 0]):
+                if _rank(repl) < _rank(a) and not (repl == [1, 0] and j == 0):
+                    s2 = list(sym)
+                    s2[j] = (op, args[:x] + [repl] + args[x + 1:])
+                    h2 = concretize(config, s2)
+                    if h2 is not None:
+                        yield {"config": config, "history": h2}
         if op[0] in ("and", "or") and len(args) > 1:
             for x in range(len(args)):
                 s2 = list(sym)
                 s2[j] = (op, args[:x] + args[x + 1:])
-                h2 = concretize(config, s2)
-                if h2 is not None:
-                    yield {"config": config, "history": h2}
-        for x, a in enumerate(args):
-            if op[0] == "dis" and x == 0:
-                continue
-            if a != [1, 0] and j > 0:
-                s2 = list(sym)
-                s2[j] = (op, args[:x] + [[1, 0]] + args[x + 1:])
                 h2 = concretize(config, s2)
                 if h2 is not None:
                     yield {"config": config, "history": h2}
@@ -1092,6 +1125,16 @@ def shrink_candidates(case):
             h2 = concretize(config, s2)
             if h2 is not None:
                 yield {"config": config, "history": h2}
+    # 4. atom identifiers renumbered 1.. in order of appearance
+    ids = []
+    for op, _ in sym:
+        if op[0] == "atom" and op[1] not in ids:
+            ids.append(op[1])
+    if ids != list(range(1, len(ids) + 1)):
+        s2 = [((["atom", ids.index(op[1]) + 1] + op[2:]) if op[0] == "atom" else op, args) for op, args in sym]
+        h2 = concretize(config, s2)
+        if h2 is not None:
+            yield {"config": config, "history": h2}
 
 
 def symptom_of(case):
@@ -1152,20 +1195,32 @@ class C11(Prop):
         cfg, variant, pname, levels, j, chunks = shard
         ex = Explorer(cfg, variant, levels)
 
+        stale = collections.Counter()   # per symptom: consecutive violations whose shrunk key was known already
+
         def on_violation(hist, err):
             case = {"config": cfg, "history": hist}
             sym = err[0]
+            if stale[sym] >= 40:
+                # the same symptom class kept shrinking to known keys: count, do not shrink again
+                acc.violation_count += 1
+                acc.counters["violations_counted_without_shrinking"] += 1
+                return
 
             def fails(c):
                 s, _ = symptom_of(c)
                 return s == sym
 
-            small = shrink(case, shrink_candidates, fails)
+            small = shrink(case, shrink_candidates, fails, limit=5000)
             s, e = symptom_of(small)
             if s != sym:  # cannot happen (the unshrunk case was just observed); stay sound
                 small, e = case, err
+            before = len(acc.violations)
             acc.violation(sym, small, expected=e[2], observed=e[3],
                           what="%s | %s" % (e[1], "; ".join(fmt_op(o) for o in small["history"])))
+            if len(acc.violations) == before:
+                stale[sym] += 1
+            else:
+                stale[sym] = 0
 
         stats = ex.run((j, chunks), on_violation)
         ninv = sum(ex.invalid.values())
@@ -1179,10 +1234,9 @@ class C11(Prop):
         acc.counters["plan_%s_transitions" % pname] += stats["transitions"]
         acc.counters["plan_%s_states" % pname] += stats["states"]
         acc.counters["violating_transitions"] += stats["violating_transitions"]
-        acc.outcomes["new-state"] += stats["states"] - 1
-        acc.outcomes["merged"] += stats["transitions"] - (stats["states"] - 1) - stats["violating_transitions"]
-        if stats["violating_transitions"]:
-            acc.outcomes["violating"] += stats["violating_transitions"]
+        acc.outcomes.update(ex.outcomes)
+        acc.counters["transitions_to_new_state"] += stats["states"] - 1
+        acc.counters["transitions_merged"] += stats["transitions"] - (stats["states"] - 1) - stats["violating_transitions"]
         if j == 0:
             acc.sample({"config": cfg, "variant": variant, "plan": pname, "levels": levels, "chunk": "%d/%d" % (j, chunks),
                         "states": stats["states"], "transitions": stats["transitions"]})
